@@ -92,7 +92,7 @@ def run(R):
                         grid.append((logn, r, p))
         grid.append((10, 8, 1))
     else:
-        grid = [(1, 1, 1), (2, 1, 2), (3, 2, 1), (4, 1, 1), (4, 3, 2), (2, 8, 1), (3, 1, 4), (R.rng.randrange(1, 5), R.rng.randrange(1, 5), R.rng.randrange(1, 4))]
+        grid = [(1, 1, 1), (2, 1, 2), (3, 2, 1), (4, 1, 1), (4, 3, 2), (2, 8, 1), (3, 1, 4), (8, 1, 1), (R.rng.randrange(1, 5), R.rng.randrange(1, 5), R.rng.randrange(1, 4))]
     dks = [1, 31, 32, 33, 64, 130]
     for i, (logn, r, p) in enumerate(grid):
         for n in (dks if (thorough and (2 ** logn) * r * p <= 64) else [dks[i % 6], dks[(i + 3) % 6]]):
